@@ -1,7 +1,7 @@
 (* C03 -- No error is masked: a defect anywhere in the compilation set makes check fail.
    Statements only; proofs are in Proofs/CliContract.v and Proofs/AnalyzerProofs.v. *)
 From Coq Require Import List NArith Bool Permutation.
-From Verif Require Import Base.Res Model.Cli Model.Analyzer Proofs.CliContract Proofs.AnalyzerProofs Base.Text Model.Scope Proofs.ScopeProofs.
+From Verif Require Import Base.Res Model.Cli Model.Analyzer Proofs.CliContract Proofs.AnalyzerProofs Base.Text Model.Scope Proofs.ScopeProofs Gen.GenRules Model.Rules Proofs.RulesProofs.
 Import ListNotations.
 
 (* a file that fails to tokenize or parse makes the check of the whole set fail, whatever the other
@@ -48,3 +48,24 @@ Example C03_example :
     = Ok [mkDecl DkType 1 10; mkDecl DkType 2 20; mkDecl DkPostfix 9 90; mkDecl DkPou 3 30]%N /\
   reassemble [1; 2]%N [mkDecl DkPou 1 10; mkDecl DkType 2 20; mkDecl DkPou 1 11]%N = Fail.
 Proof. vm_compute. split; reflexivity. Qed.
+
+(* ---- the rules on declarations and configurations (Model/Rules.v): a fault is reported whatever accompanies it ---- *)
+(* rules that look at each declaration by itself: the diagnostics of a library are those of its parts, in order *)
+Theorem C03_per_declaration_rules_not_masked : forall a u b d,
+  (In d (rule_const_not_fb u) -> In d (rule_const_not_fb (a ++ u ++ b))) /\
+  (In d (rule_task u) -> In d (rule_task (a ++ u ++ b))) /\
+  (In d (rule_stdlib u) -> In d (rule_stdlib (a ++ u ++ b))).
+Proof. intros a u b d. repeat split; apply per_fact_not_masked. Qed.
+
+Theorem C03_constant_without_value_not_masked : forall a u b,
+  rule_const_init u <> [] -> rule_const_init (a ++ u ++ b) <> [].
+Proof. exact rule_const_init_not_masked. Qed.
+
+Theorem C03_external_of_constant_global_not_masked : forall a u b,
+  rule_global_const u <> [] -> rule_global_const (a ++ u ++ b) <> [].
+Proof. exact rule_global_const_not_masked. Qed.
+
+(* a unit with a bad invocation is reported in any company (the company may only add function blocks to the table) *)
+Theorem C03_bad_invocation_not_masked : forall bs b,
+  In b bs -> fb_walk (fb_defs (stream bs)) [] b <> [] -> rule_fb_call (stream bs) <> [].
+Proof. exact rule_fb_call_not_masked. Qed.
